@@ -146,12 +146,16 @@ def c12():
         plans = [dict(universe=u, variant="xfer", depth=3, emitidx=False) for u in U] + \
                 [dict(universe=u, variant="xfer_extras", depth=10, simulate=600, emitidx=False) for u in U]
         modes, hs = ("compiled", "pure"), (0, 1)
-    return me.run("C12", "model_checking",
+    from . import expr_engine as ee
+    v = me.run("C12", "model_checking",
                   "Manager.tla with the Transfer actions pickle_copy / pickle_orig (pickle.loads(pickle.dumps(manager)) as a stuttering step, the behaviour then "
                   "continues on the copy resp. on the original): the round trip must succeed, verify() must pass, the copy's projection must equal the spec state, "
                   "every later step on either side must conform to the spec, and the other side must stay exactly as it was (independence). "
                   "non-trivial = transition whose triggered task set is non-empty",
-                  plans, tags=["C12"], modes=modes, hashseeds=hs, queries=False)
+                  plans, tags=["C12"], modes=modes, hashseeds=hs, queries=False, finish=False)
+    v.cov["rule"] += " || second stage, Expr.tla: every expression TLC builds (every node class: binary, unary, literal, builtin with and without parameters, " \
+                     "call with kwargs, nested item/attribute refs, computed keys) is pickled and restored on its own: same structure, same value"
+    return ee.run("C12", "model_checking", "", _expr_plans(_q())[:2] if _q() else _expr_plans(False), tags=["C12"], modes=modes, hashseeds=(0,), verdict=v)
 
 
 @prop("C13")
@@ -182,12 +186,19 @@ def c11():
         plans = [dict(universe=u, variant="xfer", depth=3, emitidx=False) for u in U] + \
                 [dict(universe=u, variant="xfer_extras", depth=10, simulate=600, emitidx=False) for u in U]
         modes, hs, keys = ("compiled", "pure"), (0, 1), ("plain", "hostile")
-    return me.run("C11", "model_checking",
+    from . import expr_engine as ee
+    v = me.run("C11", "model_checking",
                   "Manager.tla with the Transfer actions dumpload (fresh manager over equal containers, load(dump())), copy_plain, copy_bind (copy_expr_from with the "
                   "label rebound to a nested reference) and copy_keep (overwrite=False over a pre-existing definition): after the transfer the new manager's "
                   "projection must equal the spec state and every later step on it must conform (reacts identically). Keys: plain and hostile (quotes, brackets, "
                   "text containing the container label, unicode, ints, floats, tuples). non-trivial = non-empty triggered set",
-                  plans, tags=["C11"], keys=keys, modes=modes, hashseeds=hs, queries=False)
+                  plans, tags=["C11"], keys=keys, modes=modes, hashseeds=hs, queries=False, finish=False)
+    v.cov["rule"] += " || second stage, Expr.tla: for every expression TLC builds (all operators, literal catalogue incl. negatives and floats, abs/round(x,n)/divmod, " \
+                     "math.floor/ceil/trunc, calls with positional and keyword arguments, computed keys; plain and hostile keys) eval(str(e)) in a namespace binding " \
+                     "the container labels (and the module math) must rebuild the same AST, compare equal, hash equally and evaluate equally"
+    v.assume("a printed expression may name the module math (math.floor/ceil/trunc); Manager.load and gen_fun supply it",
+             "trees holding a LiteralExpr are not demanded to rebuild themselves: it prints as its bare literal by design")
+    return ee.run("C11", "model_checking", "", _expr_plans(_q())[:2] if _q() else _expr_plans(False), tags=["C11"], keys=keys, modes=modes, hashseeds=(0,), verdict=v)
 
 
 @prop("C20")
@@ -200,13 +211,19 @@ def c20():
         plans = [dict(universe=u, variant="xfer_extras", depth=3, emitidx=False) for u in U] + \
                 [dict(universe=u, variant="xfer_extras", depth=10, simulate=800, emitidx=False) for u in U]
         hs, keys = tuple(range(16)), ("plain", "hostile")
-    return me.run("C20", "exploration",
+    from . import expr_engine as ee
+    v = me.run("C20", "exploration",
                   "the same TLC-generated programs (every transition of Manager.tla to the stated depth plus simulated behaviours, incl. unregister / freeze / refresh / "
                   "clone / pickle / dump+load / copy_expr_from / gen_fun steps) are executed under {compiled from the working tree, pure Python} x PYTHONHASHSEED values; "
                   "per step the canonical transcript (exception class, container contents, dump() text) is digested and must be identical in every configuration. "
                   "non-trivial = transition whose triggered task set is non-empty",
                   plans, tags=["C20"], keys=keys, modes=("compiled", "pure"), hashseeds=hs, queries=False, cross_config=True,
-                  extra_assume=("fault-injection plans are not part of the corpus: 'the k-th write' is not the same program under two legal task orders",))
+                  extra_assume=("fault-injection plans are not part of the corpus: 'the k-th write' is not the same program under two legal task orders",),
+                  finish=False)
+    v.cov["rule"] += " || second stage, Expr.tla: the expression-term corpus of C04-C06 (construction, evaluation, printed form, dependencies, in-place operators) " \
+                     "replayed under the same configurations with per-step digests compared"
+    return ee.run("C20", "exploration", "", _expr_plans(True)[:1] if _q() else _expr_plans(False)[:2], tags=["C20"], modes=("compiled", "pure"),
+                  hashseeds=hs[:2] if _q() else hs[:6], cross_config=True, verdict=v)
 
 
 def _expr_plans(q):
